@@ -172,8 +172,11 @@ func runCase(c *Case) (nontrivial bool, err error) {
 		return fmt.Sprintf("attempt %d (%s of a %s configuration)", i, a.Op, a.Kind)
 	}
 	for i, o := range obs {
+		if o.Err == "SIGNAL-NOT-HANDLED" {
+			return false, fmt.Errorf("HARNESS: %s: the process log shows no sign that the SIGUSR1 handler received the signal", describe(i))
+		}
 		if o.Hung {
-			return true, fmt.Errorf("%s did not return within the watchdog after the history %v; blocked goroutines:\n%s", describe(i), kinds(c.Attempts[:i]), o.Blocked)
+			return true, fmt.Errorf("%s did not return within the watchdog after the history %v; blocked goroutines:\n%s\nprocess log:\n%s", describe(i), kinds(c.Attempts[:i]), o.Blocked, tail(resA.Log))
 		}
 	}
 	if len(obs) != len(c.Attempts) {
